@@ -16,6 +16,8 @@ import (
 // child processes. The parent re-executes its own binary with -shard i -shards n
 // and VERIF_SHARD_OUT=<file>; each child writes a ShardOut; the parent merges.
 
+var shardSeq int
+
 type ShardOut struct {
 	Counters      map[string]int64       `json:"counters"`
 	Max           map[string]int64       `json:"max"`
@@ -52,7 +54,13 @@ func (r *Run) FinishShard(out *ShardOut) {
 // RunShards runs n children and merges their outputs; violations are reported
 // through run.Violation in the parent. extra args are appended to the command line.
 func RunShards(run *Run, n int, extra ...string) *ShardOut {
-	dir := filepath.Join(Root(), ".work", fmt.Sprintf("shards-%s-%d", run.ID, os.Getpid()))
+	return RunShardsBin(run, n, os.Args[0], nil, extra...)
+}
+
+// RunShardsBin is RunShards with an explicit child binary and extra environment.
+func RunShardsBin(run *Run, n int, bin string, env []string, extra ...string) *ShardOut {
+	shardSeq++
+	dir := filepath.Join(Root(), ".work", fmt.Sprintf("shards-%s-%d-%d", run.ID, os.Getpid(), shardSeq))
 	os.MkdirAll(dir, 0o755)
 	defer os.RemoveAll(dir)
 	outs := make([]*ShardOut, n)
@@ -64,8 +72,8 @@ func RunShards(run *Run, n int, extra ...string) *ShardOut {
 			defer wg.Done()
 			file := filepath.Join(dir, fmt.Sprintf("shard%d.json", i))
 			args := append([]string{"-tier", run.Tier, "-shard", strconv.Itoa(i), "-shards", strconv.Itoa(n)}, extra...)
-			cmd := exec.Command(os.Args[0], args...)
-			cmd.Env = append(os.Environ(), "VERIF_SHARD_OUT="+file)
+			cmd := exec.Command(bin, args...)
+			cmd.Env = append(append(os.Environ(), "VERIF_SHARD_OUT="+file), env...)
 			cmd.Stderr = os.Stderr
 			cmd.Stdout = os.Stderr
 			err := cmd.Run()
